@@ -107,11 +107,11 @@ End RList.
 Notation st := (@adwin_st NumR).
 
 (** bucket [b] = (total, variance) summarises the chunk [c] of [ne] consecutive inputs exactly *)
-Definition rep_bucket (ne : Z) (b : R * R) (c : list R) : Prop :=
+Definition rep_bucket (ne : Z) (b : @bucket NumR) (c : list R) : Prop :=
   Z.of_nat (length c) = ne /\ fst b = sum c /\ snd b = sqdev (mean c) c.
 
 (** the buckets of a row, oldest first, summarise consecutive chunks (of [ne] inputs each) of [w] *)
-Fixpoint rep_row (ne : Z) (r : list (R * R)) (w : list R) : Prop :=
+Fixpoint rep_row (ne : Z) (r : @brow NumR) (w : list R) : Prop :=
   match r with
   | [] => w = []
   | b :: r' => exists c w', w = c ++ w' /\ rep_bucket ne b c /\ rep_row ne r' w'
@@ -119,27 +119,27 @@ Fixpoint rep_row (ne : Z) (r : list (R * R)) (w : list R) : Prop :=
 
 (** rows: [w = w_older ++ w_row]; the first row (bucket size [ne]) holds the newest part, the
     remaining rows (bucket sizes [2 ne], [4 ne], ...) hold the older part *)
-Fixpoint rep_rows (ne : Z) (rows : list (list (R * R))) (w : list R) : Prop :=
+Fixpoint rep_rows (ne : Z) (rows : list (@brow NumR)) (w : list R) : Prop :=
   match rows with
   | [] => w = []
   | r :: rest => exists wo wr, w = wo ++ wr /\ rep_row ne r wr /\ rep_rows (2 * ne) rest wo
   end.
 
 (** sum_i 2^i * |row i|, starting at level [i] *)
-Fixpoint weight_from (i : nat) (rows : list (list (R * R))) : Z :=
+Fixpoint weight_from (i : nat) (rows : list (@brow NumR)) : Z :=
   match rows with
   | [] => 0
   | r :: rest => pow2 i * Z.of_nat (length r) + weight_from (S i) rest
   end.
 
 (** the tail row (oldest data) is not empty *)
-Fixpoint tail_ne (rows : list (list (R * R))) : Prop :=
+Fixpoint tail_ne (rows : list (@brow NumR)) : Prop :=
   match rows with
   | [] => False
   | [r] => r <> []
   | _ :: rest => tail_ne rest
   end.
-Definition tail_ok (rows : list (list (R * R))) : Prop := tail_ne rows \/ rows = [[]].
+Definition tail_ok (rows : list (@brow NumR)) : Prop := tail_ne rows \/ rows = [[]].
 
 Lemma M2_nil : M2 [] = 0%R.
 Proof. rewrite M2_sqdev. reflexivity. Qed.
@@ -155,7 +155,7 @@ Proof.
   - symmetry. apply M2_single.
 Qed.
 
-Lemma merge_eq ne (b0 b1 : R * R) :
+Lemma merge_eq ne (b0 b1 : @bucket NumR) :
   @merge NumR ne b0 b1 =
   (fst b0 + fst b1,
    snd b0 + snd b1 + IZR ne * (fst b0 / IZR ne - fst b1 / IZR ne) * (fst b0 / IZR ne - fst b1 / IZR ne) / 2)%R.
@@ -262,7 +262,7 @@ Lemma pow2_0 : pow2 0 = 1.
 Proof. reflexivity. Qed.
 
 Lemma pop_rep : forall rows ne w, tail_ne rows -> rep_rows ne rows w ->
-  exists (b : R * R) (rows' : list (list (R * R))) c w',
+  exists (b : @bucket NumR) (rows' : list (@brow NumR)) c w',
     @pop_tail_bucket NumR rows = (Some b, rows') /\ w = c ++ w' /\
     rep_bucket (ne * pow2 (length rows - 1)) b c /\ rep_rows ne rows' w' /\
     rows' <> [] /\ S (@n_buckets NumR rows') = @n_buckets NumR rows.
@@ -291,7 +291,7 @@ Proof.
     unfold n_buckets in *. cbn [concat] in Hcnt |- *. rewrite !app_length in *. lia.
 Qed.
 
-Lemma drop_empty_tail_cons2 (r r2 : list (R * R)) rest :
+Lemma drop_empty_tail_cons2 (r r2 : @brow NumR) (rest : list (@brow NumR)) :
   @drop_empty_tail NumR (r :: r2 :: rest) =
   match @drop_empty_tail NumR (r2 :: rest) with
   | [[]] => [r]
@@ -299,18 +299,28 @@ Lemma drop_empty_tail_cons2 (r r2 : list (R * R)) rest :
   end.
 Proof. reflexivity. Qed.
 
+Lemma drop_cases (r r2 : @brow NumR) (rest : list (@brow NumR)) :
+  (@drop_empty_tail NumR (r2 :: rest) = [[]] /\ @drop_empty_tail NumR (r :: r2 :: rest) = [r]) \/
+  (@drop_empty_tail NumR (r2 :: rest) <> [[]] /\
+   @drop_empty_tail NumR (r :: r2 :: rest) = r :: @drop_empty_tail NumR (r2 :: rest)).
+Proof.
+  rewrite drop_empty_tail_cons2.
+  destruct (@drop_empty_tail NumR (r2 :: rest)) as [|[|b l] [|r3 l3]];
+    [right|left|right|right|right]; split; try reflexivity; discriminate.
+Qed.
+
+Lemma tail_ne_nonnil rows : tail_ne rows -> rows <> [].
+Proof. intros H ->. exact H. Qed.
+
 Lemma drop_rep : forall rows ne w, rep_rows ne rows w -> rep_rows ne (@drop_empty_tail NumR rows) w.
 Proof.
   induction rows as [|r rest IH]; intros ne w Hrep; [exact Hrep|].
   destruct rest as [|r2 rest]; [exact Hrep|].
-  rewrite drop_empty_tail_cons2.
   destruct Hrep as (wo & wr & -> & Hr & Hrest). apply IH in Hrest.
-  destruct (@drop_empty_tail NumR (r2 :: rest)) as [|[|b l] [|r3 l3]].
-  - exists wo, wr. split; [reflexivity|]. split; assumption.
-  - destruct Hrest as (wo1 & wr1 & -> & Hr1 & Hrest1). cbn [rep_row] in Hr1. cbn [rep_rows] in Hrest1.
-    subst. exists [], wr. split; [reflexivity|]. split; [exact Hr | reflexivity].
-  - exists wo, wr. split; [reflexivity|]. split; assumption.
-  - exists wo, wr. split; [reflexivity|]. split; assumption.
+  destruct (drop_cases r r2 rest) as [[E1 E2]|[E1 E2]]; rewrite E2.
+  - rewrite E1 in Hrest. destruct Hrest as (wo1 & wr1 & -> & Hr1 & Hrest1).
+    cbn [rep_row] in Hr1. cbn [rep_rows] in Hrest1. subst.
+    exists [], wr. split; [reflexivity|]. split; [exact Hr | reflexivity].
   - exists wo, wr. split; [reflexivity|]. split; assumption.
 Qed.
 
@@ -319,33 +329,33 @@ Proof.
   induction rows as [|r rest IH]; intros Hn; [congruence|].
   destruct rest as [|r2 rest].
   - cbn [drop_empty_tail]. destruct r; [right; reflexivity | left; cbn [tail_ne]; discriminate].
-  - rewrite drop_empty_tail_cons2.
-    destruct (IH ltac:(discriminate)) as [Ht | He].
-    + destruct (@drop_empty_tail NumR (r2 :: rest)) as [|[|b l] [|r3 l3]]; try (left; exact Ht).
-      * destruct Ht.
-      * exfalso. apply Ht. reflexivity.
-    + rewrite He. destruct r; [right; reflexivity | left; cbn [tail_ne]; discriminate].
+  - destruct (drop_cases r r2 rest) as [[E1 E2]|[E1 E2]]; rewrite E2.
+    + destruct r; [right; reflexivity | left; cbn [tail_ne]; discriminate].
+    + destruct (IH ltac:(discriminate)) as [Ht | He]; [|congruence].
+      left. apply tail_ne_cons; [apply tail_ne_nonnil; exact Ht | exact Ht].
 Qed.
 
 Lemma drop_count : forall rows, @n_buckets NumR (@drop_empty_tail NumR rows) = @n_buckets NumR rows.
 Proof.
   induction rows as [|r rest IH]; [reflexivity|].
   destruct rest as [|r2 rest]; [reflexivity|].
-  rewrite drop_empty_tail_cons2. unfold n_buckets in *. cbn [concat] in *.
-  rewrite (app_length r), <- IH.
-  destruct (@drop_empty_tail NumR (r2 :: rest)) as [|[|b l] [|r3 l3]]; cbn [concat]; rewrite ?app_length; cbn [length]; lia.
+  destruct (drop_cases r r2 rest) as [[E1 E2]|[E1 E2]]; rewrite E2.
+  - rewrite E1 in IH. unfold n_buckets in *. cbn [concat] in *. rewrite !app_length in *.
+    cbn [length] in *. lia.
+  - unfold n_buckets in *. cbn [concat] in *. rewrite !app_length in *. lia.
 Qed.
 
 (** ** the scan: a cut is only found if the part newer than the oldest bucket has
     at least [a_sub_thresh] elements *)
-Fixpoint tag (ne : Z) (is_row0 : bool) (l : list (R * R)) : list (Z * (R * R) * bool) :=
-  match l with
-  | [] => []
-  | [b] => [(ne, b, is_row0)]
-  | b :: l' => (ne, b, false) :: tag ne is_row0 l'
-  end.
+Definition tag (ne : Z) (is_row0 : bool) : @brow NumR -> list (Z * @bucket NumR * bool) :=
+  fix tag (l : @brow NumR) : list (Z * @bucket NumR * bool) :=
+    match l with
+    | [] => []
+    | [b] => [(ne, b, is_row0)]
+    | b :: l' => (ne, b, false) :: tag l'
+    end.
 
-Lemma flat_rows_cons ne (r : list (R * R)) rest f :
+Lemma flat_rows_cons ne (r : @brow NumR) rest f :
   @flat_rows NumR ne (r :: rest) f = @flat_rows NumR (2 * ne) rest false ++ tag ne f r.
 Proof. reflexivity. Qed.
 
@@ -378,7 +388,7 @@ Proof.
   eapply Forall_impl; [|apply tag_sizes]. cbv beta. intros e ->. exact Hne.
 Qed.
 
-Definition hd_size (bs : list (Z * (R * R) * bool)) : Z :=
+Definition hd_size (bs : list (Z * @bucket NumR * bool)) : Z :=
   match bs with [] => 0 | e :: _ => fst (fst e) end.
 
 Lemma flat_rows_hd : forall rows ne f, tail_ne rows ->
@@ -392,4 +402,283 @@ Proof.
     destruct (@flat_rows NumR (2 * ne) (r2 :: rest) false) as [|e l] eqn:E; [congruence|].
     split; [discriminate|]. cbn [app hd_size] in *. rewrite Hhd.
     cbn [length Nat.sub]. rewrite Nat.sub_0_r, pow2_S. lia.
+Qed.
+
+Section Run.
+Variable dpd : Z -> R.
+Variable p : adwin_params.
+
+Lemma scan_true_bound : forall bs var W n0 n1 t0 t1,
+  Forall (fun e => 0 <= fst (fst e)) bs ->
+  @scan NumR dpd p bs var W n0 n1 t0 t1 = true ->
+  bs <> [] /\ a_sub_thresh p <= n1 - hd_size bs.
+Proof.
+  induction bs as [|[[sz b] l0] rest IH]; intros var W n0 n1 t0 t1 HF H.
+  - discriminate H.
+  - split; [discriminate|]. cbn [hd_size fst]. cbn [scan] in H. cbv zeta in H.
+    destruct l0; [discriminate H|].
+    destruct (_ && _ && _) eqn:E in H.
+    + apply andb_true_iff in E as [E _]. apply andb_true_iff in E as [_ E]. apply Z.leb_le in E. exact E.
+    + inversion HF as [|e l Hsz HF']; subst. apply IH in H; [|exact HF'].
+      destruct H as [Hnn H]. destruct rest as [|e rest']; [congruence|].
+      inversion HF' as [|e' l' Hsz' _]; subst. cbn [hd_size fst] in *. lia.
+Qed.
+
+(** a cut can only be found if the tail row is non-empty and the window is strictly larger than its
+    oldest bucket (by at least [a_sub_thresh]) *)
+Lemma found_cut_bound (s : st) : tail_ok (a_rows s) -> @found_cut NumR dpd p s = true ->
+  tail_ne (a_rows s) /\ a_sub_thresh p <= a_W s - pow2 (length (a_rows s) - 1).
+Proof.
+  intros Hok Hf. unfold found_cut in Hf.
+  apply scan_true_bound in Hf; [|apply flat_rows_sizes; lia]. destruct Hf as [Hnn Hb].
+  destruct Hok as [Ht | He]; [|rewrite He in Hnn; exfalso; apply Hnn; reflexivity].
+  split; [exact Ht|]. destruct (flat_rows_hd (a_rows s) 1 true Ht) as [_ Hhd].
+  rewrite Hhd in Hb. lia.
+Qed.
+
+(** * Part 4: the invariant *)
+Record exact_window (s : st) (w : list R) : Prop := {
+  ew_W : a_W s = Z.of_nat (length w);
+  ew_total : a_total s = sum w;
+  ew_var : a_var s = M2 w;
+  ew_rows : rep_rows 1 (a_rows s) w;
+  ew_tail : tail_ok (a_rows s)
+}.
+
+Lemma init_exact : exact_window adwin_init [].
+Proof.
+  constructor; try reflexivity.
+  - symmetry. apply M2_nil.
+  - exists [], []. repeat split.
+  - right. reflexivity.
+Qed.
+
+(** ** adding a sample *)
+Lemma after_add_W (s : st) x : a_W (after_add p s x) = a_W s + 1.
+Proof. unfold after_add. destruct (is_none (a_ds s)); reflexivity. Qed.
+Lemma after_add_fuel (s : st) x : a_fuel_out (after_add p s x) = a_fuel_out s.
+Proof. unfold after_add. destruct (is_none (a_ds s)); reflexivity. Qed.
+Lemma after_add_total (s : st) x : a_total (after_add p s x) = (a_total s + x)%R.
+Proof. unfold after_add. destruct (is_none (a_ds s)); reflexivity. Qed.
+Lemma after_add_var (s : st) x : a_var (after_add p s x) =
+  if 1 <? a_W s + 1
+  then (a_var s + IZR (a_W s + 1 - 1) * (x - a_total s / IZR (a_W s + 1 - 1))
+                  * (x - a_total s / IZR (a_W s + 1 - 1)) / IZR (a_W s + 1))%R
+  else a_var s.
+Proof. unfold after_add. destruct (is_none (a_ds s)); reflexivity. Qed.
+Lemma after_add_rows (s : st) x : a_rows (after_add p s x) =
+  match a_rows s with
+  | r0 :: rest => @compress NumR (a_max_buckets p) 1 (r0 ++ [(x, 0%R)]) rest
+  | [] => @compress NumR (a_max_buckets p) 1 [(x, 0%R)] []
+  end.
+Proof. unfold after_add. destruct (is_none (a_ds s)); reflexivity. Qed.
+
+Lemma tail_ok_nonnil rows : tail_ok rows -> rows <> [].
+Proof. intros [H | ->]; [apply tail_ne_nonnil; exact H | discriminate]. Qed.
+
+Lemma add_exact (s : st) w x : exact_window s w -> exact_window (after_add p s x) (w ++ [x]).
+Proof.
+  intros [HW HT HV HR HK]. constructor.
+  - rewrite after_add_W, app_length, HW. cbn [length]. lia.
+  - rewrite after_add_total, sum_app, HT. cbn [sum]. lra.
+  - rewrite after_add_var. destruct (1 <? a_W s + 1) eqn:E.
+    + apply Z.ltb_lt in E. replace (a_W s + 1 - 1) with (a_W s) by lia.
+      rewrite HV, HT. symmetry. apply welford_step; [exact HW | lia].
+    + apply Z.ltb_ge in E. destruct w as [|y w]; [|cbn [length] in HW; lia].
+      cbn [app]. rewrite HV, M2_nil. symmetry. apply M2_single.
+  - rewrite after_add_rows. destruct (a_rows s) as [|r0 rest] eqn:Er; [exfalso; exact (tail_ok_nonnil _ HK eq_refl)|].
+    apply compress_rep; [lia|].
+    destruct HR as (wo & wr & -> & Hr & Hrest). exists wo, (wr ++ [x]).
+    split; [symmetry; apply app_assoc|]. split; [|exact Hrest].
+    apply rep_row_app; [exact Hr|]. apply rep_row_single. apply rep_bucket_sample.
+  - rewrite after_add_rows. destruct (a_rows s) as [|r0 rest] eqn:Er; [exfalso; exact (tail_ok_nonnil _ HK eq_refl)|].
+    left. apply compress_tail_ne. destruct rest as [|r1 rest'].
+    + cbn [tail_ne]. destruct r0; discriminate.
+    + destruct HK as [Ht | He]; [exact Ht | discriminate He].
+Qed.
+
+(** ** removing the oldest bucket *)
+Lemma remove_last_eq (s : st) (b : @bucket NumR) rows' :
+  @pop_tail_bucket NumR (a_rows s) = (Some b, rows') ->
+  let nc := pow2 (length (a_rows s) - 1) in
+  let W' := a_W s - nc in
+  a_rows (remove_last s) = @drop_empty_tail NumR rows' /\
+  a_W (remove_last s) = W' /\
+  a_total (remove_last s) = (a_total s - fst b)%R /\
+  a_var (remove_last s) =
+    (a_var s - (snd b + IZR (nc * W') * (fst b / IZR nc - (a_total s - fst b) / IZR W')
+                        * (fst b / IZR nc - (a_total s - fst b) / IZR W') / IZR (nc + W')))%R /\
+  a_fuel_out (remove_last s) = a_fuel_out s.
+Proof. intros Hpop. unfold remove_last. rewrite Hpop. repeat split. Qed.
+
+Lemma remove_exact (s : st) w : 1 <= a_sub_thresh p ->
+  exact_window s w -> @found_cut NumR dpd p s = true ->
+  exists c w', w = c ++ w' /\ exact_window (remove_last s) w' /\
+    S (@n_buckets NumR (a_rows (remove_last s))) = @n_buckets NumR (a_rows s) /\
+    a_fuel_out (remove_last s) = a_fuel_out s.
+Proof.
+  intros Hsub [HW HT HV HR HK] Hf.
+  destruct (found_cut_bound s HK Hf) as [Ht Hb].
+  destruct (pop_rep (a_rows s) 1 w Ht HR) as (b & rows' & c & w' & Hpop & -> & Hbk & Hrows' & Hnn & Hcnt).
+  destruct (remove_last_eq s b rows' Hpop) as (Er & EW & ET & EV & EF).
+  rewrite Z.mul_1_l in Hbk. apply rep_bucket_M2 in Hbk as (Lc & Tc & Vc).
+  set (nc := pow2 (length (a_rows s) - 1)) in *.
+  assert (Hnc : 0 < nc) by apply pow2_pos.
+  rewrite app_length, Nat2Z.inj_add in HW.
+  assert (HW' : a_W s - nc = Z.of_nat (length w')) by lia.
+  assert (Hsum' : (a_total s - fst b)%R = sum w') by (rewrite HT, Tc, sum_app; lra).
+  exists c, w'. split; [reflexivity|]. split; [|split; [rewrite Er, drop_count; exact Hcnt | exact EF]].
+  constructor.
+  - rewrite EW. exact HW'.
+  - rewrite ET. exact Hsum'.
+  - rewrite EV, Hsum', HV, Tc, Vc. symmetry. apply remove_step; [symmetry; exact Lc | exact HW' | exact Hnc | lia].
+  - rewrite Er. apply drop_rep. exact Hrows'.
+  - rewrite Er. apply drop_tail_ok. exact Hnn.
+Qed.
+
+Lemma mark_exact (s : st) w : exact_window s w -> exact_window (mark_fuel_out s) w.
+Proof. intros [HW HT HV HR HK]. constructor; assumption. Qed.
+
+(** ** the shrink loop: the retained window is a suffix of the window, and the fuel
+    [n_buckets] suffices *)
+Lemma shrink_exact : 1 <= a_sub_thresh p -> forall fuel (s : st) w, exact_window s w ->
+  exists c w', w = c ++ w' /\ exact_window (@shrink NumR dpd p fuel s) w'.
+Proof.
+  intros Hsub fuel s w Hs.
+  apply (@shrink_ind NumR dpd p (fun s' => exists c w', w = c ++ w' /\ exact_window s' w')).
+  - intros s0 (c & w0 & -> & H0) Hf.
+    destruct (remove_exact s0 w0 Hsub H0 Hf) as (c1 & w1 & -> & H1 & _).
+    exists (c ++ c1), w1. split; [apply app_assoc | exact H1].
+  - intros s0 (c & w0 & -> & H0). exists c, w0. split; [reflexivity | apply mark_exact; exact H0].
+  - exists [], w. split; [reflexivity | exact Hs].
+Qed.
+
+Lemma shrink_fuel : 1 <= a_sub_thresh p -> forall fuel (s : st) w, exact_window s w ->
+  (@n_buckets NumR (a_rows s) <= fuel)%nat -> a_fuel_out (@shrink NumR dpd p fuel s) = a_fuel_out s.
+Proof.
+  intros Hsub. induction fuel as [|fuel IH]; intros s w Hs Hn; cbn [shrink].
+  - destruct (@found_cut NumR dpd p s) eqn:Hf; [|reflexivity]. exfalso.
+    unfold found_cut in Hf. assert (Hl : length (@flat_rows NumR 1 (a_rows s) true) = 0%nat)
+      by (rewrite flat_rows_length; lia).
+    destruct (@flat_rows NumR 1 (a_rows s) true); [discriminate Hf | discriminate Hl].
+  - destruct (@found_cut NumR dpd p s) eqn:Hf; [|reflexivity].
+    destruct (remove_exact s w Hsub Hs Hf) as (c1 & w1 & _ & H1 & Hcnt & EF).
+    rewrite (IH _ w1 H1); [exact EF | lia].
+Qed.
+
+(** ** one update, and the run *)
+Lemma update_exact : 1 <= a_sub_thresh p -> forall (s : st) w x, exact_window s w ->
+  exists c w', w ++ [x] = c ++ w' /\ exact_window (@adwin_update NumR dpd p s x) w' /\
+    a_fuel_out (@adwin_update NumR dpd p s x) = a_fuel_out s.
+Proof.
+  intros Hsub s w x Hs. rewrite (@adwin_update_eq NumR dpd p). cbv zeta.
+  pose proof (add_exact s w x Hs) as H1.
+  destruct (scheduled p (after_add p s x)).
+  - destruct (shrink_exact Hsub (n_buckets (a_rows (after_add p s x))) _ _ H1) as (c & w' & E & H2).
+    exists c, w'. split; [exact E|]. split; [exact H2|].
+    rewrite (shrink_fuel Hsub _ _ _ H1 (le_n _)). apply after_add_fuel.
+  - exists [], (w ++ [x]). split; [reflexivity|]. split; [exact H1 | apply after_add_fuel].
+Qed.
+
+Lemma run_exact : 1 <= a_sub_thresh p -> forall xs (s : st) d w, exact_window s w ->
+  exists d' w', d ++ w ++ xs = d' ++ w' /\ exact_window (@adwin_run NumR dpd p s xs) w' /\
+    a_fuel_out (@adwin_run NumR dpd p s xs) = a_fuel_out s.
+Proof.
+  intros Hsub. induction xs as [|x xs IH]; intros s d w Hs.
+  - exists d, w. rewrite app_nil_r. split; [reflexivity|]. split; [exact Hs | reflexivity].
+  - destruct (update_exact Hsub s w x Hs) as (c & w1 & E & H1 & F1).
+    destruct (IH _ (d ++ c) w1 H1) as (d' & w' & E' & H' & F').
+    exists d', w'. split; [|split; [exact H' | unfold adwin_run in *; cbn [fold_left]; rewrite F'; exact F1]].
+    rewrite <- E'. change (x :: xs) with ([x] ++ xs). rewrite (app_assoc w), E, <- !app_assoc. reflexivity.
+Qed.
+
+End Run.
+
+(** * The final statements *)
+(** the [n] most recent elements of [l] *)
+Definition lastn {A} (n : nat) (l : list A) : list A := skipn (length l - n) l.
+
+Lemma lastn_app {A} (d w : list A) : lastn (length w) (d ++ w) = w.
+Proof.
+  unfold lastn. rewrite app_length. replace (length d + length w - length w)%nat with (length d) by lia.
+  rewrite skipn_app, skipn_all, Nat.sub_diag. reflexivity.
+Qed.
+
+Lemma adwin_exact_main (dpd : Z -> R) (p : adwin_params) : 1 <= a_sub_thresh p ->
+  forall xs : list R,
+  let s := @adwin_run NumR dpd p adwin_init xs in
+  let W := a_W s in
+  let w := lastn (Z.to_nat W) xs in
+  0 <= W <= Z.of_nat (length xs) /\
+  Z.of_nat (length w) = W /\
+  a_total s = sum w /\
+  a_var s = sqdev (mean w) w /\
+  rep_rows 1 (a_rows s) w /\
+  W = weight_from 0 (a_rows s) /\
+  a_fuel_out s = false.
+Proof.
+  intros Hsub xs.
+  destruct (run_exact dpd p Hsub xs adwin_init [] [] init_exact) as (d & w & E & [HW HT HV HR HK] & HF).
+  cbn [app] in E. cbv zeta. rewrite HW, Nat2Z.id. subst xs. rewrite lastn_app.
+  split; [rewrite app_length; lia|]. split; [reflexivity|]. split; [exact HT|].
+  split; [rewrite <- M2_sqdev; exact HV|]. split; [exact HR|]. split; [|exact HF].
+  apply rep_rows_len. exact HR.
+Qed.
+
+(** the window is empty only before the first input: a cut keeps at least [a_sub_thresh] elements *)
+Section NonEmpty.
+Variable dpd : Z -> R.
+Variable p : adwin_params.
+Hypothesis Hsub : 1 <= a_sub_thresh p.
+
+Lemma remove_W_pos (s : st) w : exact_window s w -> @found_cut NumR dpd p s = true ->
+  1 <= a_W (remove_last s).
+Proof.
+  intros [HW HT HV HR HK] Hf. destruct (found_cut_bound dpd p s HK Hf) as [Ht Hb].
+  destruct (pop_rep (a_rows s) 1 w Ht HR) as (b & rows' & c & w' & Hpop & _).
+  destruct (remove_last_eq s b rows' Hpop) as (_ & EW & _). rewrite EW. lia.
+Qed.
+
+Lemma shrink_W_pos fuel (s : st) w : exact_window s w -> 1 <= a_W s ->
+  1 <= a_W (@shrink NumR dpd p fuel s).
+Proof.
+  intros Hs HW.
+  apply (@shrink_ind NumR dpd p (fun s' => (exists w', exact_window s' w') /\ 1 <= a_W s')).
+  - intros s0 [(w0 & H0) _] Hf. split; [|exact (remove_W_pos s0 w0 H0 Hf)].
+    destruct (remove_exact dpd p s0 w0 Hsub H0 Hf) as (c1 & w1 & _ & H1 & _). exists w1. exact H1.
+  - intros s0 [(w0 & H0) H1]. split; [exists w0; apply mark_exact; exact H0 | exact H1].
+  - split; [exists w; exact Hs | exact HW].
+Qed.
+
+Lemma update_W_pos (s : st) w x : exact_window s w -> 1 <= a_W (@adwin_update NumR dpd p s x).
+Proof.
+  intros Hs. rewrite (@adwin_update_eq NumR dpd p). cbv zeta.
+  assert (H1 : 1 <= a_W (after_add p s x)) by (rewrite after_add_W; destruct Hs as [HW _ _ _ _]; lia).
+  destruct (scheduled p (after_add p s x)); [|exact H1].
+  apply (shrink_W_pos _ _ (w ++ [x])); [apply add_exact; exact Hs | exact H1].
+Qed.
+
+Lemma run_W_pos xs : xs <> [] -> 1 <= a_W (@adwin_run NumR dpd p adwin_init xs).
+Proof.
+  intros Hne. destruct (exists_last Hne) as (xs' & x & ->).
+  unfold adwin_run. rewrite fold_left_app. cbn [fold_left].
+  destruct (run_exact dpd p Hsub xs' adwin_init [] [] init_exact) as (d & w & _ & Hw & _).
+  exact (update_W_pos _ w x Hw).
+Qed.
+End NonEmpty.
+
+(** mean() and variance() of the detector *)
+Lemma adwin_exact_mean_variance (dpd : Z -> R) (p : adwin_params) : 1 <= a_sub_thresh p ->
+  forall xs : list R, xs <> [] ->
+  let s := @adwin_run NumR dpd p adwin_init xs in
+  let w := lastn (Z.to_nat (a_W s)) xs in
+  1 <= a_W s /\
+  @mean_of NumR (a_total s) (a_W s) = mean w /\
+  @variance_of NumR (a_var s) (a_W s) = (sqdev (mean w) w / len w)%R.
+Proof.
+  intros Hsub xs Hne. cbv zeta.
+  pose proof (run_W_pos dpd p Hsub xs Hne) as HW. split; [exact HW|].
+  destruct (adwin_exact_main dpd p Hsub xs) as (_ & HL & HT & HV & _).
+  unfold mean_of, variance_of. destruct (a_W _ =? 0) eqn:E; [apply Z.eqb_eq in E; lia|].
+  rewrite HT, HV. unfold mean, len. rewrite HL. split; reflexivity.
 Qed.
